@@ -5,7 +5,7 @@ import refmon
 import refrun
 from machgen import Session
 from vcheck import Suite
-from vlib import Rng
+from vlib import Case, Rng
 
 ID = "C13"
 PROPS_MODULE = "AmqModel.Props.C13"
@@ -23,7 +23,7 @@ def monitor(case, il, sl):
     v = monitors.listeners(tr, rr, "c13-forward")
     if v:
         return v
-    return None
+    return monitors.compliant_frame_rejected(case, il, sl, "c13-disturbed")
 
 
 def nontrivial(case, il):
@@ -56,7 +56,7 @@ def gen_matrix(tier, seed):
     for rs in states_rc:
         for cs in states_rc:
             for bs in ["none", "live", "dropped"]:
-                for seq in itertools.product(["ret", "conf", "blk"], repeat=L):
+                for seq in itertools.product(["ret", "ack", "nack", "blk"], repeat=L):
                     g = mg.Gen(rng, chmax=2, bound=4, via_stream=0.0)
                     h = g.open_channel(1); g.bind_opened(h, 1)
                     live = []
@@ -82,9 +82,9 @@ def gen_matrix(tier, seed):
                         if e == "ret":
                             frs, _ = g.content(1, mg.ret(1, 312, "NO_ROUTE", "ex", "rk"), size=3)
                             g.feed(frs)
-                        elif e == "conf":
+                        elif e in ("ack", "nack"):
                             tag += 1
-                            g.feed([mg.ack(1, tag, False) if tag % 2 else mg.nack(1, tag, True)])
+                            g.feed([mg.ack(1, tag, tag % 3 == 0) if e == "ack" else mg.nack(1, tag, tag % 2 == 0)])
                         else:
                             g.feed([mg.blocked("mem") if tag % 2 == 0 else mg.unblocked()])
                     g.finish()
@@ -93,8 +93,21 @@ def gen_matrix(tier, seed):
     return cases
 
 
+def conf_e2e_monitor(case, il, sl):
+    n = int(case.ops[0].split()[1])
+    l = next((x for x in il if x and not x.startswith("#")), "<no output>")
+    if l != "confirms n=%d received=%d first-deviation=-" % (n, n):
+        return ("%d messages published in confirm mode and acked one by one by the broker while nobody read the listener; reading it afterwards gave: %s" % (n, l), "c13-e2e-confirms")
+    return None
+
+
 def suites(tier, seed):
-    return [Suite("listener-matrix", "machine", lambda: gen_matrix(tier, seed), monitor=monitor, nontrivial=lambda c, il: True, canon=mg.canon_nondet, candidate_ok=mg.candidate_ok, exhaustive=True, shards=4,
-                  rule="one channel; return listener x confirm listener in {never set, live, receiver dropped, replaced} x blocked listener in {never set, live, dropped} x EVERY sequence of 3 (thorough: 4) events from {returned message, ack/nack, blocked/unblocked}; all listener queues read to their end"),
+    return [Suite("confirm-backlog-e2e", "confe2e", lambda: [Case("e%d" % n, ["run %d" % n], {"keep_prefix": 0}) for n in ([300, 6000] if tier == "quick" else [1, 300, 4096, 4097, 6000, 20000, 70000])],
+                  monitor=conf_e2e_monitor, nontrivial=lambda c, il: True, compare=False, shards=4, timeout=300,
+                  rule="public API end to end (real I/O thread, mock transport, broker acking every publish): listen_for_publisher_confirms, N publishes with nobody reading the listener, a round trip on another channel, then the listener is read: Ack 1..N in order (N = 300, 6000; thorough up to 70 000)"),
+            Suite("listener-backlog", "machine", lambda: [mg.backlog_cases(Rng(seed + 33), "confirm", 6000), mg.backlog_cases(Rng(seed + 34), "return", 3000)], monitor=monitor, nontrivial=lambda c, il: True, canon=mg.canon_nondet, shrink=False, timeout=600,
+                  rule="6000 acks/nacks (3000 returned messages) pile up unread in a listener's queue, another channel is served meanwhile, then the listener reads all of them in order"),
+            Suite("listener-matrix", "machine", lambda: gen_matrix(tier, seed), monitor=monitor, nontrivial=lambda c, il: True, canon=mg.canon_nondet, candidate_ok=mg.candidate_ok, exhaustive=True, shards=4,
+                  rule="one channel; return listener x confirm listener in {never set, live, receiver dropped, replaced} x blocked listener in {never set, live, dropped} x EVERY sequence of 3 (thorough: 4) events from {returned message, ack, nack, blocked/unblocked}; all listener queues read to their end"),
             Suite("sessions", "machine", lambda: gen(tier, seed), monitor=monitor, nontrivial=nontrivial, canon=mg.canon_nondet, candidate_ok=mg.candidate_ok,
                   rule="random sessions biased to acks/nacks (tags up to 2^64-1, multiple flag), returned messages and blocked/unblocked notices, with listeners registered, replaced and dropped at random points, with and without a listener")]
